@@ -20,6 +20,7 @@ RULE = (
     "histories built inside a helper that hands back one or two nodes only (the rest of the tree is kept alive by its links alone; parent chain and whole tree are then read from the kept node). "
     "Non-trivial = a successful call that changes at least one link, or a refusal. Enumerated distinct by construction; histories hashed."
     ' Also: legal calls on classes whose repr() raises; every parent assignment on forests N <= 4 with a hook that evicts a sibling (closed-form expectation); children from generators with side effects on the same node.'
+    ' Also: look-alike non-nodes (node class instead of instance, stub with node-like attributes).'
 )
 ASSUMPTIONS = [
     "oracle = closed-form post-state and refusal predicate written from the statement (vf/mut.py spec), compared on the whole universe",
